@@ -19,7 +19,8 @@ _fetch/_done/_failed`) and `immutable/upload.py` (`RemoteEncryptedUploadable.rem
 * Already-present decision: `found >= total_shares` distinct share numbers and a readable UEB.
 
 Deviations: one reader per attempt (`AskUntilSuccessMixin` with several concurrent clients is not
-modelled); failures are "the n-th `read_encrypted` call fails" or "a failure after the fetch completed";
+modelled); failures are "the n-th `read_encrypted` call fails", "the helper dies there and the tail of the partial file is lost"
+or "a failure after the fetch completed";
 timing, the status objects and the statistics are not modelled.
 -/
 namespace Tahoe.Helper
@@ -36,11 +37,21 @@ inductive Fault
   | none
   | read (i : Nat)
   | encode
+  /-- the helper process dies at the `i`-th `read_encrypted` call: what was appended but not yet on disk is
+  lost, the file keeps only its first `keep` bytes (the file is opened in append mode, so what survives is
+  a prefix of what was written) -/
+  | crash (i : Nat) (keep : Nat)
   deriving DecidableEq, Repr
 
 def Fault.readAt : Fault → Option Nat
   | .read i => some i
+  | .crash i _ => some i
   | _ => Option.none
+
+/-- how much of the partial file survives the failed attempt -/
+def Fault.survives : Fault → List UInt8 → List UInt8
+  | .crash _ keep, file => file.take keep
+  | _, file => file
 
 /-- `CHKCiphertextFetcher._loop/_fetch` against a `RemoteEncryptedUploadable` holding `ct`:
 `i` = number of `read_encrypted` calls made so far in this attempt, `roff` = the reader's `_offset`,
@@ -68,7 +79,7 @@ def attempt (chunk : Nat) (ct : List UInt8) (d : Disk) (f : Fault) : Disk × Opt
     if f == .encode then (d, none) else ({ d with encoding := none }, some e)
   | none =>
     let r := fetchLoop chunk ct f.readAt (ct.length + 1) 0 0 (d.incoming.getD [])
-    if !r.2 then ({ incoming := some r.1, encoding := none }, none)
+    if !r.2 then ({ incoming := some (f.survives r.1), encoding := none }, none)
     else if f == .encode then ({ incoming := none, encoding := some r.1 }, none)   -- renamed, then failure
     else ({ incoming := none, encoding := none }, some r.1)                        -- `_finished` unlinks it
 
